@@ -49,7 +49,11 @@ def enc : PyVal → JVal
   | .obj cls mod .auto attrs =>
     .obj [("_type", .str cls), ("_module", .str mod), ("_data", .obj (encPublic attrs))]
   | .obj cls mod .custom attrs =>
-    .obj [("_type", .str cls), ("_module", .str mod), ("_data", .obj (encKVs attrs)), ("_custom", .bool true)]
+    -- `_serialize_value(value.to_save_dict())`: the record a class hands out is a dict like any other (wrapped when it uses
+    -- the reserved key itself)
+    .obj [("_type", .str cls), ("_module", .str mod),
+          ("_data", if attrs.any (·.1 == "_type") then .obj [("_type", .str "dict"), ("_data", .obj (encKVs attrs))] else .obj (encKVs attrs)),
+          ("_custom", .bool true)]
 def encList : List PyVal → List JVal
   | [] => []
   | v :: vs => enc v :: encList vs
@@ -78,10 +82,12 @@ def dec (ctx : Registry) : JVal → PyVal
       (match d.lookup "_value" with | some (.str s) => .str s | _ => .str "")
     | some (.str "dict") => .dict ((decDataOf ctx d).getD [])
     | some (.str ty) =>
-      let data : List (String × PyVal) := (decDataOf ctx d).getD []
       (match ctx.lookup ty with
-       | none => .dict data
-       | some (m, kind) => .obj ty m kind data)
+       | none => .dict ((decDataOf ctx d).getD [])
+       | some (m, .auto) => .obj ty m .auto ((decDataOf ctx d).getD [])
+       | some (m, .custom) =>
+         -- `cls.from_save_dict(self._deserialize_value(obj_data))`: the record is deserialised as a whole
+         .obj ty m .custom (match decDataC ctx d with | some (.dict kvs) => kvs | _ => []))
     | some _ => .dict (decKVs ctx d)
 def decList (ctx : Registry) : List JVal → List PyVal
   | [] => []
@@ -89,6 +95,10 @@ def decList (ctx : Registry) : List JVal → List PyVal
 def decKVs (ctx : Registry) : List (String × JVal) → List (String × PyVal)
   | [] => []
   | (k, v) :: rest => (k, dec ctx v) :: decKVs ctx rest
+/-- `deser(value.get("_data", {}))` -/
+def decDataC (ctx : Registry) : List (String × JVal) → Option PyVal
+  | [] => none
+  | (k, v) :: rest => if k == "_data" then some (dec ctx v) else decDataC ctx rest
 /-- `{k: deser(v) for k, v in value.get("_data", {}).items()}` -/
 def decDataOf (ctx : Registry) : List (String × JVal) → Option (List (String × PyVal))
   | [] => none
